@@ -35,6 +35,22 @@ def handle (op : String) (args : List String) : Option String :=
         | _ => "bad-op"
       | _, _, _, _ => "bad-op"
     | _ => "bad-op"
+  | "save_incr" =>
+    -- save_incr table|stream <maxId> <version-hex> <mark-hex> <prev-hex> <trailer> <k> (<num> <gen> <obj>)*
+    some <| match args with
+    | kind :: mx :: ver :: mark :: prev :: rest =>
+      match mx.toNat?, bytesOfHex ver, bytesOfHex mark, bytesOfHex prev, parseObj rest with
+      | some maxId, some version, some bm, some pv, some (.dict tr, k :: rest') =>
+        match k.toNat?.bind (fun k => parseObjects k rest') with
+        | some (os, []) =>
+          let d : Doc := { version := version, binaryMark := bm, trailer := tr, objects := os, maxId := maxId,
+                           xrefKind := if kind = "stream" then .stream else .table }
+          match saveIncr pv d with
+          | some (bytes, d') => "ok " ++ hexTok bytes ++ " " ++ toString d'.maxId ++ " " ++ showObj (.dict d'.trailer)
+          | none => "err"
+        | _ => "bad-op"
+      | _, _, _, _, _ => "bad-op"
+    | _ => "bad-op"
   | "parse_obj" =>
     some <| match args with
     | [h] =>
